@@ -212,8 +212,9 @@ def to_tk(circuit):
             tk_circ.__getattribute__(box.name[:2])(2 * box.phase, *i_qubits)
         elif isinstance(box, CRz):
             tk_circ.__getattribute__(box.name[:3])(2 * box.phase, *i_qubits)
-        elif hasattr(tk_circ, box.name):
-            tk_circ.__getattribute__(box.name)(*i_qubits)
+        elif hasattr(tk_circ, box.name + ("dg" if box.is_dagger else "")):
+            name = box.name + ("dg" if box.is_dagger else "")
+            tk_circ.__getattribute__(name)(*i_qubits)
         else:
             raise NotImplementedError
 
@@ -284,6 +285,8 @@ def from_tk(tk_circuit):
         for gate in GATES:
             if name == gate.name:
                 return gate
+            if name == gate.name + "dg":
+                return gate.dagger()
         raise NotImplementedError
 
     def make_units_adjacent(tk_gate):
